@@ -101,3 +101,7 @@ def register_all(reg):
     reg("C08", "netx", "model_checking", "explicit-state search over a virtual FIFO network of probe computations built on the real SynchronousComputationMixin (all interleavings, start orders; state caching) x send-plan enumeration",
         "Every connected graph on <=3 (thorough 4) nodes x every send plan (who sends an algorithm message to which neighbours in even/odd rounds, through post_msg or the returned list) is explored over all delivery and start orders up to a 3-round horizon, plus the real DSA-tuto computations; after every step the rounds must be consecutive, the handed dict must hold exactly the algorithm messages the plan sent for that round, and no ComputationException may escape.",
         NETX_NOTE, "DESIGN.md 3 C08")
+
+    reg("C05", "netx", "model_checking", "explicit-state search of the real (A-)Max-Sum computations over a virtual FIFO network (all interleavings for small instances, canonical schedules beyond; state caching) x unique-optimum instance family",
+        "On acyclic instances with a unique brute-force optimum, the real factor and variable computations of synchronous Max-Sum (round horizon) and A-Max-Sum (until quiescence; default and leafs_vars start) with damping 0 / noise 0 are explored; every maximal path must end on the unique optimum.",
+        NETX_NOTE + " Instances beyond the pair (and a slice of the 3-chains) use 4 canonical schedules instead of all interleavings.", "DESIGN.md 3 C05")
